@@ -13,8 +13,8 @@ TRUSTED_BASE = [
     "hand-written skeleton coq/Skel/AndersonCD.v tied by executed correspondence with the real AndersonCD._solve on mock kernels",
     "tools/solverlib.py / speclib.py documented objective formulas (implementation-side oracle)",
 ]
-ASSUMPTIONS = ["other solvers (ProxNewton, GramCD, GroupBCD, GroupProxNewton, MultiTaskBCD, FISTA, LBFGS) and estimator n_iter_: "
-               "decided by the prefix-run oracle on the implementation (partial)"]
+ASSUMPTIONS = ["skeletons of GramCD, GroupBCD, ProxNewton, FISTA are hand-written and tied by executed correspondence (every history entry compared); "
+               "GroupProxNewton, MultiTaskBCD, LBFGS and estimator n_iter_: decided by the prefix-run oracle on the implementation (partial)"]
 RULE = ("correspondence: real AndersonCD._solve vs skeleton on mock kernels (every history entry, stop_crit, #iterations, #epochs compared); "
         "oracle: for budgets k = 1..K the history of the k-budget run has min(k, iterations-to-converge) entries, is a prefix of the "
         "(k+1)-budget history, and its last entry is the documented objective recomputed from (X, y, w, b) of the returned point; "
